@@ -786,12 +786,12 @@ pub fn def() -> PropertyDef {
             "VP9: muxide's accepted keyframe form is its own layout; the generator mirrors the documented layout and checks propagation into vpcC",
         ],
         subs: vec![
-            Box::new(PSub { name: "h264", quick: 1500, thorough: 60_000, strat: s_h264, eval: eval_key }),
-            Box::new(PSub { name: "h265", quick: 1500, thorough: 60_000, strat: s_h265, eval: eval_key }),
-            Box::new(PSub { name: "av1", quick: 2500, thorough: 100_000, strat: s_av1, eval: eval_key }),
-            Box::new(PSub { name: "vp9", quick: 1500, thorough: 60_000, strat: s_vp9, eval: eval_key }),
-            Box::new(PSub { name: "frag_init", quick: 2000, thorough: 60_000, strat: s_init, eval: eval_init }),
-            Box::new(PSub { name: "audio", quick: 1500, thorough: 40_000, strat: s_audio, eval: eval_audio }),
+            Box::new(PSub { name: "h264", quick: 8000, thorough: 300000, strat: s_h264, eval: eval_key }),
+            Box::new(PSub { name: "h265", quick: 8000, thorough: 300000, strat: s_h265, eval: eval_key }),
+            Box::new(PSub { name: "av1", quick: 15000, thorough: 600000, strat: s_av1, eval: eval_key }),
+            Box::new(PSub { name: "vp9", quick: 8000, thorough: 300000, strat: s_vp9, eval: eval_key }),
+            Box::new(PSub { name: "frag_init", quick: 10000, thorough: 300000, strat: s_init, eval: eval_init }),
+            Box::new(PSub { name: "audio", quick: 6000, thorough: 150000, strat: s_audio, eval: eval_audio }),
         ],
     }
 }
